@@ -12,11 +12,35 @@ package panos
 //vc:only[C11] (*net/http.Client).Get in (*State).httpGet
 //vc:only[C11] (*State).httpGet in (*State).getAPIKey, (*State).httpPrefixGetLog
 
+//vc:func (*State).httpGet
+//vc:  ensures[C09] @errorStatusIsError result1 == nil ==> lastHTTPStatus == 200
+
+//vc:func parseResponse
+//vc:  set devFailure = devFailure || result2 != nil
+//vc:  ensures[C09] @noSuccessIsError result2 == nil ==> v.Status == "success"
+//vc:  ensures[C09] devFailure == (old(devFailure) || result2 != nil)
+
 //vc:func (*State).httpPrefixGetLog
 //vc:  requires[C11] !isCompareRun || readOnlyPanCmd(uri)
+//vc:  requires[C09] @noChangeAfterFailure !devFailure || readOnlyPanCmd(uri)
+//vc:  set devFailure = devFailure || result1 != nil
+//vc:  ensures[C09] devFailure == (old(devFailure) || result1 != nil)
 
 //vc:func (*State).ApplyCommands
 //vc:  requires[C11] !isCompareRun
+//vc:  requires[C09] !devFailure
+//vc:  invariant[C09] 1 "for _, chg := range s.changes" !devFailure
+//vc:  invariant[C09] 2 "for _, cmd := range chg.Cmds" !devFailure
+//vc:  set changesConfirmed = result == nil && !devFailure
+//vc:  ensures[C09] @nilOnlyIfNoFailure result == nil ==> !devFailure && changesConfirmed
+
+// commit: success only if the device has nothing to commit or the job ended OK
+//vc:func (*State).ApplyCommands$2
+//vc:  requires[C11] !isCompareRun
+//vc:  requires[C09] !devFailure
+//vc:  invariant[C09] 1 "for {" !devFailure
+//vc:  ensures[C09] @noFailureBeforeOrInCommit result == nil ==> !devFailure
+//vc:  ensures[C09] @commitConfirmed result == nil ==> (strings.Contains(msg, "There are no changes to commit") || strings.Contains(msg, "The result of this commit would be the same") || s.Result == "OK")
 
 //vc:func (*PanConfig).checkDeviceName
 //vc:  set nameChecked = result == nil
@@ -35,11 +59,15 @@ package panos
 //vc:  ensures[C06] @activeMemberOnly err == nil ==> haActive
 
 //vc:func (*State).checkUnmanaged
+//vc:  ensures[C09] @unmanagedErrorNotNil !isnil(s.errUnmanaged) && (isnil(old(s.errUnmanaged)) || (len(old(s.errUnmanaged)) > 0 && old(s.errUnmanaged[0]) != nil)) ==> len(s.errUnmanaged) > 0 && s.errUnmanaged[0] != nil
 //vc:  set markerMissing = markerMissing || !strings.Contains(strings.ToLower(v.DisplayName), "netspoc")
 //vc:  ensures[C06] @vsysMarkerMeaning markerMissing == (old(markerMissing) || !strings.Contains(strings.ToLower(v.DisplayName), "netspoc"))
 //vc:  ensures[C06] @missingMarkerRecorded (old(markerMissing) ==> len(old(s.errUnmanaged)) > 0) ==> (markerMissing ==> len(s.errUnmanaged) > 0)
 
 //vc:func (*State).GetChanges
+//vc:  ensures[C09] @unmanagedErrorNotNil isnil(old(s.errUnmanaged)) && !isnil(s.errUnmanaged) ==> len(s.errUnmanaged) > 0 && s.errUnmanaged[0] != nil
+//vc:  invariant[C09] in processVsysPairs 1 "for _, v1 := range d1.Vsys" isnil(old(s.errUnmanaged)) && !isnil(s.errUnmanaged) ==> len(s.errUnmanaged) > 0 && s.errUnmanaged[0] != nil
+//vc:  invariant[C09] in processVsysPairs 2 "for _, v2 := range d2.Vsys" isnil(old(s.errUnmanaged)) && !isnil(s.errUnmanaged) ==> len(s.errUnmanaged) > 0 && s.errUnmanaged[0] != nil
 //vc:  invariant[C06] in processVsysPairs 1 "for _, v1 := range d1.Vsys" (old(markerMissing) ==> len(old(s.errUnmanaged)) > 0) ==> (markerMissing ==> len(s.errUnmanaged) > 0)
 //vc:  invariant[C06] in processVsysPairs 2 "for _, v2 := range d2.Vsys" (old(markerMissing) ==> len(old(s.errUnmanaged)) > 0) ==> (markerMissing ==> len(s.errUnmanaged) > 0)
 //vc:  ensures[C06] @missingMarkerRecorded (old(markerMissing) ==> len(old(s.errUnmanaged)) > 0) ==> (markerMissing ==> len(s.errUnmanaged) > 0)
